@@ -15,7 +15,7 @@ RULE = ('(i) every clause body tree with <= N operators from , ; -> \\+ over the
         'the context of C05, with and without a continuation goal m(W) after the construct; (ii) every '
         'unparenthesised body l1 op1 l2 .. opk lk+1 (k <= K, ops from , ; ->, every leaf from {z o m true} '
         'optionally prefixed by \\+) compiled as written and compared with RefProlog run on the tree obtained by '
-        'an independent operator-precedence reading. states = distinct answer sequences; transitions = '
+        'an independent operator-precedence reading; (iii) deep spines: every tree with <= D operators over the leaves {o m z !} placed in ONE position (condition, then, else, either alternative, negated goal, either conjunct) of a construct whose other positions are single leaves, with a continuation goal. states = distinct answer sequences; transitions = '
         'next() calls on the real engine; non-trivial = at least one answer')
 ASSUMPTIONS = ['RefProlog implements the standard semantics of ; -> \\+ and cut',
                'cuts in the condition of -> or under \\+ are outside the property and skipped',
@@ -24,7 +24,7 @@ ASSUMPTIONS = ['RefProlog implements the standard semantics of ; -> \\+ and cut'
 
 def bounds(tier):
     return {'max_operators': 2 if tier == 'quick' else 3,
-            'precedence_max_ops': 2 if tier == 'quick' else 3,
+            'precedence_max_ops': 2 if tier == 'quick' else 3, 'deep_spine_operators': 2 if tier == 'quick' else 3,
             'leaves': bodies.LEAVES, 'precedence_leaves': PLEAVES}
 
 
@@ -36,6 +36,9 @@ def plan(tier):
     sh = [('trees', k, treecheck.NSHARDS, maxops, tier) for k in range(treecheck.NSHARDS)]
     kmax = 2 if tier == 'quick' else 3
     sh += [('prec', k, 16, kmax, tier) for k in range(16)]
+    sh += [('spine', k, 64, 2, tier) for k in range(64)]
+    if tier != 'quick':
+        sh += [('spine', k, 256, 3, tier) for k in range(256)]
     return sh
 
 
@@ -52,6 +55,8 @@ def run_shard(spec):
     if spec[0] == 'trees':
         _, k, n, maxops, tier = spec
         return run_trees(k, n, maxops, tier)
+    if spec[0] == 'spine':
+        return run_spines(spec)
     return run_prec(spec)
 
 
@@ -79,6 +84,77 @@ def run_trees(k, n, maxops, tier):
                 acc.sample({'tree': bodies.show_tree(t), 'variant': var,
                             'program': case.describe()['scripts'][1]['text'],
                             'answers_agreeing_with_reference': len(res['outcome'][0][1])})
+    return acc
+
+
+# ---- deep spines --------------------------------------------------------------------------
+# The operator bound above limits the TOTAL number of operators.  The rewrite rules of the code
+# generator, however, interact along one spine: what sits inside the condition, a branch or an
+# alternative of a construct.  These families put a deep part D (every tree with <= dmax operators
+# over the leaves o m z !) into ONE position of a construct whose other positions are single
+# leaves, followed by a continuation goal.
+DEEP_LEAVES = ['o', 'm', 'z', '!']
+
+
+def deep_trees(dmax):
+    out = []
+    for n in range(dmax + 1):
+        out += bodies.trees(n, DEEP_LEAVES)
+    return out
+
+
+def spine_cases(dmax, small):
+    """yields symbolic trees; `small` is the leaf alphabet of the non-deep positions"""
+    conds = [('L', k) for k in small if k != '!']
+    leaves = [('L', k) for k in small]
+    for d in deep_trees(dmax):
+        cutfree = bodies.cut_positions(d) == (0, 0)
+        if cutfree:
+            for t_ in leaves:
+                for e in leaves:
+                    yield (';', ('->', d, t_), e)
+                yield ('->', d, t_)
+            yield ('\\+', d)
+        for c in conds:
+            for x in leaves:
+                yield (';', ('->', c, d), x)
+                yield (';', ('->', c, x), d)
+            yield ('->', c, d)
+        for x in leaves:
+            yield (';', d, x)
+            yield (';', x, d)
+            yield (',', d, x)
+            yield (',', x, d)
+
+
+def run_spines(spec):
+    _, k, n, dmax, tier = spec
+    acc = Acc()
+    small = ['o', 'z', '!'] if tier == 'quick' else ['o', 'z', '!', 'm']
+    if tier != 'quick' and dmax >= 3:
+        small = ['o', '!']
+    seen = set()
+    for idx, t in enumerate(spine_cases(dmax, small)):
+        if idx % n != k:
+            continue
+        if bodies.count_ops(t) <= (2 if tier == 'quick' else 3):
+            continue   # already enumerated by the plain operator bound
+        key = bodies.show_tree(t)
+        if key in seen:
+            continue
+        seen.add(key)
+        tr, op = bodies.cut_positions(t)
+        if op:
+            acc.n['evaluations'] += 1
+            acc.skipped['opaque-cut'] += 1
+            continue
+        case = treecheck.tree_case(t, suffix=1)
+        res = case.run()
+        if res['status'] == 'violation':
+            res['sig'] = 'deep-spine:' + res['sig']
+        account(acc, (2, idx, 0), case, res, key=key)
+        if res['status'] == 'ok' and res['nontrivial'] and idx % 7001 == 0:
+            acc.sample({'deep_spine_tree': key, 'program': case.describe()['scripts'][1]['text']}, limit=1)
     return acc
 
 
